@@ -205,12 +205,13 @@ def r154(prog, chk):
                 ax, ay = v.args[0].elts
                 okv = isinstance(ax, ast.Attribute) and ax.attr == "x" and isinstance(ay, ast.Attribute) and ay.attr == "y" and T(ax.value) == T(ay.value)
                 tv = v.func.value
-                ds = prog.reaching(fn, tv.id, tv) if isinstance(tv, ast.Name) else []
-                okv = okv and bool(ds) and all(isinstance(d.value, ast.Call) and A.callee_name(d.value) == "Transform" and len(d.value.args) == 1 and isinstance(d.value.args[0], ast.Starred)
-                                               and T(d.value.args[0].value).endswith(".transformation") for d in ds)
+                # the transform is a local bound to Transform(*<component>.transformation), or that expression itself
+                tvals = [d.value for d in prog.reaching(fn, tv.id, tv)] if isinstance(tv, ast.Name) else [tv]
+                okv = okv and bool(tvals) and all(isinstance(x, ast.Call) and A.callee_name(x) == "Transform" and len(x.args) == 1 and isinstance(x.args[0], ast.Starred)
+                                                  and T(x.args[0].value).endswith(".transformation") for x in tvals)
                 if okv and fn is not aj:
                     # anchor and component come from the same (anchor, component) pair
-                    cn = T(ds[0].value.args[0].value).rsplit(".", 1)[0]
+                    cn = T(tvals[0].args[0].value).rsplit(".", 1)[0]
                     an = T(ax.value)
                     pair_defs = [d for d in prog.reaching(fn, an, ax.value)] if isinstance(ax.value, ast.Name) else []
                     okv = bool(pair_defs) and all(d.target is not None and cn in A.target_names(d.target) for d in pair_defs)
